@@ -12,9 +12,10 @@ Direct oracle: (1) the first datagram of a fresh client is a discovery probe (em
 user, reportable, no auth) and every later request carries the discovered engine id as security
 engine id and as default context engine id; (2) a discovery reply with a foreign message id
 raises InvalidResponseId, one without bindings SnmpError, and nothing is cached; (3) every request
-of an authenticated user is inside the agent's 150 s window and succeeds, however far the clock
-advanced.  Histories containing an agent reboot violate (3) on the current code: recorded known
-finding (see DESIGN.md), identified by `after_reboot`.
+of an authenticated user is inside the agent's 150 s window, however far the clock advanced,
+and every operation succeeds; after an agent reboot exactly one datagram may be outside the
+window (the client learns of the reboot from the notInTimeWindow report) and the operation still
+succeeds (fixed finding C12-no-resync-after-reboot).
 
 Non-trivial: histories with at least two requests separated by a clock advance.
 """
@@ -29,7 +30,6 @@ from harness.knownsig import auth_len127
 
 ASSUMPTIONS = [
     "client and agent clocks advance together (no drift); the client's clock is time.monotonic() as read by puresnmp_plugins.mpm.v3",
-    "re-synchronisation after an agent reboot is a recorded known finding, not claimed",
 ]
 OID = [1, 3, 6, 1, 2, 1, 1, 1, 0]
 # virtual time in ticks of 0.1 s (exact arithmetic: the client's monotonic clock returns Fractions)
@@ -88,6 +88,7 @@ def run_history(level, ctx_engine, start, boots, events, report_ctx="same"):
     w = World(level, ctx_engine, start, boots, report_ctx)
     trace, results, failures = [], [], []
     rebooted = False
+    stale = False  # the agent rebooted since the client last sent it a request inside the window
     try:
         for ev in events:
             if ev[0] == "advance":
@@ -97,6 +98,7 @@ def run_history(level, ctx_engine, start, boots, events, report_ctx="same"):
                 w.v3.boots += 1
                 w.boot_at = w.now
                 rebooted = True
+                stale = True
                 continue
             w.bad_reply = ev[1] if ev[0] == "request-bad-reply" else None
             n = len(w.agent.log)
@@ -125,12 +127,20 @@ def run_history(level, ctx_engine, start, boots, events, report_ctx="same"):
                         failures.append(("request does not carry the discovered engine id", rebooted))
                     if ctx is not None and ctx != (ctx_engine or w.v3.engine_id).hex():
                         failures.append(("context engine id is neither the configured nor the discovered one", rebooted))
-                    if level != "noauth" and not iw:
+                    if iw:
+                        stale = False
+                    elif level != "noauth" and stale:
+                        # the one attempt the client cannot avoid: it learns of the reboot from the
+                        # notInTimeWindow report; the operation itself must still succeed (below)
+                        stale = False
+                    elif level != "noauth":
                         failures.append((f"request outside the agent's time window: sent boots={e['boots']} time={e['time']}, agent boots={w.v3.boots} time={(w.now - w.boot_at) // 10}", rebooted))
             first_req = next((i for i, t in enumerate(trace) if t[0] == "req"), None)
             if first_req is not None and ["probe"] not in trace[:first_req]:
                 failures.append(("request sent before any discovery probe", rebooted))
-            if ev[0] == "request-bad-reply" and entries and entries[0].get("kind") == "discovery":
+            # the refused reply hits whichever discovery this operation performs: the initial one, or
+            # the one that follows a notInTimeWindow report
+            if ev[0] == "request-bad-reply" and any(e.get("kind") == "discovery" for e in entries):
                 want = ["error", ["invalidResponseId"]] if ev[1].startswith("badid") else ["error", ["snmpError"]]
                 if res != want:
                     failures.append((f"refused discovery reply ({ev[1]}) gave {res}", rebooted))
